@@ -15,6 +15,8 @@ func TestMain(m *testing.M) {
 	os.Exit(code)
 }
 
+var dumpN int
+
 func majority(n int) int { return n - (n-1)/2 }
 
 // genConfig draws everything a simulated deployment depends on.
@@ -75,6 +77,10 @@ func TestDeploy(t *testing.T) {
 		cfg := genConfig(r.T)
 		res := RunSim(t, cfg)
 		r.W = &World{Log: res.Log}
+		if d := os.Getenv("VERIF_DUMPLOG"); d != "" {
+			dumpN++
+			_ = os.WriteFile(fmt.Sprintf("%s/run%03d.log", d, dumpN), []byte(strings.Join(res.Log, "\n")+"\n"), 0o644)
+		}
 		if res.Harness != "" {
 			harnessf("%s", res.Harness)
 		}
